@@ -5,9 +5,11 @@ import (
 	"fmt"
 	"io"
 	"math"
+	"math/rand"
 	"net"
 	"os"
 	"sync"
+	"sync/atomic"
 	"time"
 
 	"github.com/simpleiot/simpleiot/modbus"
@@ -167,7 +169,19 @@ type mbLink struct {
 }
 
 func newMbLink(r *vlib.R, kind string, spec mbMapSpec, unit byte) *mbLink {
-	regs, model := buildRegs(r, mbMapSpec{Name: spec.Name, Ranges: spec.Ranges}) // no validators here
+	return newMbLinkOn(r, kind, spec, unit, nil)
+}
+
+// newMbLinkOn builds a client/server pair; with shared != nil the server works on that register file
+// (several servers on one register file = several masters talking to one device).
+func newMbLinkOn(r *vlib.R, kind string, spec mbMapSpec, unit byte, shared *modbus.Regs) *mbLink {
+	var regs *modbus.Regs
+	var model *mbModel
+	if shared != nil {
+		regs = shared
+	} else {
+		regs, model = buildRegs(r, mbMapSpec{Name: spec.Name, Ranges: spec.Ranges}) // no validators here
+	}
 	l := &mbLink{kind: kind, regs: regs, model: model, unit: unit, mu: &sync.Mutex{}, srvErr: &[]string{}}
 	var ct, st modbus.Transport
 	if kind == "rtu" {
@@ -227,7 +241,7 @@ var c19Maps = []mbMapSpec{
 
 func runC19(tier string, _ []string) int {
 	c := vlib.NewCtx("C19", tier, "exploration")
-	c.SetRule("real modbus.Client <-> real modbus.Server.Listen over (a) RTU framing on a packet-preserving in-memory duplex and (b) TCP framing on net.Pipe; 4 register maps with PRNG contents; every client method (ReadCoils, ReadDiscreteInputs, ReadHoldingRegs, ReadInputRegs, WriteSingleCoil, WriteSingleReg) x addresses (map edges, unmapped, 0xFFFF) x counts 1..largest fitting the client's 200-byte frame (success required, values and number of values compared with the server's registers) and beyond up to the protocol maximum on fresh pairs (error or correct values, never wrong ones) x unit ids; write then read back through the client and directly from the register file; a man-in-the-middle alters responses: 1-bit / 2-bit / <=16-bit-burst CRC damage (RTU), truncation at every length, wrong transaction id (TCP) => the call must fail; a withheld reply delivered late (TCP) must not answer the next request; 70000 consecutive TCP transactions (id wrap); conversions: all 2^16 register values, sampled 32-bit patterns incl. NaNs, both word orders, bit-exact in both directions. distinct = (transport, method, count class, outcome)")
+	c.SetRule("real modbus.Client <-> real modbus.Server.Listen over (a) RTU framing on a packet-preserving in-memory duplex and (b) TCP framing on net.Pipe; 4 register maps with PRNG contents; every client method (ReadCoils, ReadDiscreteInputs, ReadHoldingRegs, ReadInputRegs, WriteSingleCoil, WriteSingleReg) x addresses (map edges, unmapped, 0xFFFF) x counts 1..largest fitting the client's 200-byte frame (success required, values and number of values compared with the server's registers) and beyond up to the protocol maximum on fresh pairs (error or correct values, never wrong ones) x unit ids; write then read back through the client and directly from the register file; a man-in-the-middle alters responses: 1-bit / 2-bit / <=16-bit-burst CRC damage (RTU), truncation at every length, wrong transaction id (TCP) => the call must fail; a withheld reply delivered late (TCP) must not answer the next request; 70000 consecutive TCP transactions (id wrap); conversions: all 2^16 register values, sampled 32-bit patterns incl. NaNs, both word orders, bit-exact in both directions. distinct = (transport, method, count class, outcome) Finally several masters on one register file: 3-6 client/server pairs (TCP and RTU) share one modbus.Regs; every connection writes coils only it owns (interleaved with the other connections' coils inside the same 16-bit registers) and its own register, reads each back after the acknowledgement and all are compared at rest.")
 	c.Assume("the in-memory duplex delivers whole packets (as respreader does on a serial line); reads time out after 150 ms")
 	wd := c.NewWatchdog()
 	nPairs := c.N(24, 400)
@@ -660,6 +674,87 @@ func runC19(tier string, _ []string) int {
 			}
 		}
 		c.Distinct("conv 32-bit both word orders")
+	}
+	// ---- several masters on one register file: every acknowledged write is what a read returns, also
+	// when other connections write neighbouring coils of the same 16-bit register at the same moment
+	nShared := c.N(6, 60)
+	for si := 0; si < nShared && !vlib.Aborted(); si++ {
+		r := vlib.NewR(c.Seed, "c19shared", si)
+		regs := &modbus.Regs{}
+		regs.AddReg(0, 8) // coils 0..127 live in registers 0..7
+		regs.AddReg(100, 8)
+		nCl := 3 + r.Intn(4)
+		var links []*mbLink
+		for k := 0; k < nCl; k++ {
+			links = append(links, newMbLinkOn(r, []string{"tcp", "rtu"}[(k+si)%2], c19Maps[0], 1, regs))
+		}
+		rounds := c.N(150, 400)
+		var wg sync.WaitGroup
+		var bad atomic.Value
+		finalCoil := make([]map[uint16]bool, nCl)
+		finalReg := make([]uint16, nCl)
+		for k := range links {
+			wg.Add(1)
+			seed := r.Int63()
+			go func(k int, l *mbLink) {
+				defer wg.Done()
+				cr := rand.New(rand.NewSource(seed))
+				finalCoil[k] = map[uint16]bool{}
+				for q := 0; q < rounds && bad.Load() == nil; q++ {
+					if cr.Intn(4) == 0 {
+						// the connection's own holding register
+						v := uint16(cr.Intn(65536))
+						if err := l.client.WriteSingleReg(1, uint16(100+k), v); err != nil {
+							bad.Store(fmt.Sprintf("connection %d: WriteSingleReg(%d): %v", k, 100+k, err))
+							return
+						}
+						finalReg[k] = v
+						got, err := l.client.ReadHoldingRegs(1, uint16(100+k), 1)
+						if err != nil || len(got) != 1 || got[0] != v {
+							bad.Store(fmt.Sprintf("connection %d wrote %d to register %d (acknowledged) and read back %v %v", k, v, 100+k, got, err))
+							return
+						}
+						continue
+					}
+					// a coil only this connection writes; its neighbours in the register belong to the others
+					coil := uint16(k + nCl*cr.Intn(100/nCl))
+					v := cr.Intn(2) == 1
+					if err := l.client.WriteSingleCoil(1, coil, v); err != nil {
+						bad.Store(fmt.Sprintf("connection %d: WriteSingleCoil(%d): %v", k, coil, err))
+						return
+					}
+					finalCoil[k][coil] = v
+					got, err := l.client.ReadCoils(1, coil, 1)
+					if err != nil || len(got) != 1 || got[0] != v {
+						bad.Store(fmt.Sprintf("connection %d wrote coil %d = %v (acknowledged) and read back %v %v while %d other connections wrote other coils", k, coil, v, got, err, nCl-1))
+						return
+					}
+				}
+			}(k, links[k])
+		}
+		wg.Wait()
+		c.Eval(nCl * rounds)
+		if b := bad.Load(); b == nil {
+			for k := range links {
+				for coil, v := range finalCoil[k] {
+					if got, err := regs.ReadCoil(int(coil)); err != nil || got != v {
+						bad.Store(fmt.Sprintf("at rest: coil %d holds %v, the last acknowledged write (connection %d) was %v", coil, got, k, v))
+					}
+				}
+				if got, err := regs.ReadReg(100 + k); err == nil && finalReg[k] != 0 && got != finalReg[k] {
+					bad.Store(fmt.Sprintf("at rest: register %d holds %d, last acknowledged write %d", 100+k, got, finalReg[k]))
+				}
+			}
+		}
+		for _, l := range links {
+			l.close()
+		}
+		if b := bad.Load(); b != nil {
+			c.Violate("modbus-e2e:acknowledged-write-not-read-back:concurrent-masters", b.(string), map[string]any{"case": si, "seed": c.Seed, "connections": nCl})
+			break
+		}
+		c.Count("shared_register_file_runs", 1)
+		c.Distinct(fmt.Sprintf("shared register file, %d connections", nCl))
 	}
 	c.Require("calls:ok", 200)
 	c.Require("calls:error", 50)
